@@ -922,6 +922,23 @@ macro_rules | `(tactic| sima_prim) => `(tactic| first
   | (sima_headis guardVal; exact sima_guardVal _)
   | (sima_headis unguardVal; exact sima_unguardVal _) | (sima_headis allocBytes; exact sima_allocBytes _))
 
+theorem sima_guardRows (es : List (Val × Val)) :
+    SimA δ id (guardRows es) (guardRows (es.map (shiftE δ))) := by
+  unfold guardRows; sima_auto
+theorem sima_unguardRows (es : List (Val × Val)) :
+    SimA δ id (unguardRows es) (unguardRows (es.map (shiftE δ))) := by
+  unfold unguardRows; sima_auto
+theorem sima_guardRows_of {es es' : List (Val × Val)} (h : es' = es.map (shiftE δ)) :
+    SimA δ id (guardRows es) (guardRows es') := by
+  subst h; exact sima_guardRows es
+theorem sima_unguardRows_of {es es' : List (Val × Val)} (h : es' = es.map (shiftE δ)) :
+    SimA δ id (unguardRows es) (unguardRows es') := by
+  subst h; exact sima_unguardRows es
+
+macro_rules | `(tactic| sima_prim) => `(tactic| first
+  | (sima_headis guardRows; apply sima_guardRows_of; first | rfl | (simp only [List.map_cons, shiftE_mk]; done))
+  | (sima_headis unguardRows; apply sima_unguardRows_of; first | rfl | (simp only [List.map_cons, shiftE_mk]; done)))
+
 theorem sima_initTable : SimA δ (· + δ) initTable initTable := by
   unfold initTable; sima_auto
 theorem sima_initString (b : List UInt8) : SimA δ (· + δ) (initString b) (initString b) := by
